@@ -71,8 +71,8 @@ func universeA(rng *rand.Rand, large bool) []plain {
 
 // craftedPlain is a plaintext blob whose CONTENT has the shape of a meta blob: it names the
 // plaintext ref of victim and the ciphertext ref of donor.  It is an ordinary user blob.
-func craftedPlain(victim, donor plain) plain {
-	head := fmt.Sprintf("#camlistore/encmeta=2\n%s/%d/", victim.Ref, len(victim.Data))
+func craftedPlain(victim, donor plain, sizeDelta int) plain {
+	head := fmt.Sprintf("#camlistore/encmeta=2\n%s/%d/", victim.Ref, len(victim.Data)+sizeDelta)
 	enc := donor.Enc.String()
 	p := mkPlain("sha224", "meta-shaped", []byte(head+enc+"\n"))
 	p.exLo, p.exHi = len(head), len(head)+len(enc)
@@ -268,7 +268,7 @@ func (t *tstore) verify(s blobserver.Storage, m *mutant, idx []int) (affectedOut
 						m.Class, m.Target, m.Name, m.Desc, p.Ref, p.Kind, len(p.Data), len(got), size, head(got), head(p.Data)), m)
 				out = "different"
 			case int(size) != len(p.Data):
-				t.r.Violation(t.sig(m.Class, "wrong-size/fetch", m),
+				t.r.Violation(t.sig(m.Class, "wrong-size", m)+"/fetch",
 					fmt.Sprintf("after %s of %s blob %s (%s): Fetch(%s) returned the right bytes but size %d, want %d", m.Class, m.Target, m.Name, m.Desc, p.Ref, size, len(p.Data)), m)
 				out = "wrong-size"
 			default:
@@ -286,7 +286,7 @@ func (t *tstore) verify(s blobserver.Storage, m *mutant, idx []int) (affectedOut
 		}
 		t.r.Eval(1)
 		if serr == nil && present && int(ssize) != len(p.Data) {
-			t.r.Violation(t.sig(m.Class, "wrong-size/stat", m),
+			t.r.Violation(t.sig(m.Class, "wrong-size", m)+"/stat",
 				fmt.Sprintf("after %s of %s blob %s (%s): StatBlobs(%s) reports size %d, true plaintext size %d", m.Class, m.Target, m.Name, m.Desc, p.Ref, ssize, len(p.Data)), m)
 		}
 	}
@@ -597,8 +597,12 @@ func tamperA(r *ev.Run, root string, n int, large bool) {
 	if large {
 		vi, di = 0, 1
 	}
-	t.plains = append(t.plains, craftedPlain(t.plains[vi], t.plains[di]))
-	if !t.receiveAll(len(t.plains) - 1) {
+	t.plains = append(t.plains, craftedPlain(t.plains[vi], t.plains[di], 0))
+	if !large {
+		// a second one that names the victim's own ciphertext but a wrong size
+		t.plains = append(t.plains, craftedPlain(t.plains[7], t.plains[7], 1))
+	}
+	if !t.receiveAll(len(t.plains) - 1 - map[bool]int{true: 0, false: 1}[large]) {
 		return
 	}
 	in.leakCheckAll(t.sc, t.plains, "after all receives")
